@@ -288,6 +288,23 @@ def mps_peps_roundtrips(ctx, quick, trees):
                 objs.append(('mps-with-central-block', mid))
         if rng.random() < 0.5:
             objs.append(('mps-with-factor', -2.5 * psi))
+        # periodic MPO with its truncation tolerance (an attribute next to the tensors)
+        if N >= 2:
+            P = mps.MpoPBC(N=N)
+            for n_ in range(N):
+                P[n_] = H[n_]
+            P.tol = rng.choice([None, 1e-8, 0.5])
+            for level in (0, 1, 2):
+                for rn, route in (('direct', lambda d: d), ('split', lambda d: yastn.combine_data_and_meta(*yastn.split_data_and_meta(d)))):
+                    ctx.case(dict(kind='mpo-pbc-roundtrip', family=fam, sym=sym, N=N, level=level, route=rn, rep=k), nontrivial=True)
+                    try:
+                        Q = mps.MpoPBC.from_dict(route(P.to_dict(level=level)))
+                        ok = type(Q).__name__ == 'MpoPBC' and Q.tol == P.tol and Q.N == P.N and all(tgen.obs(Q[n_]) == tgen.obs(P[n_]) for n_ in range(N))
+                    except Exception as e:
+                        ok = False
+                    if not ok:
+                        ctx.violation('MpoPBC (tol=%r) does not round-trip through to_dict(level=%d)/%s (%s %s N=%d)' % (P.tol, level, rn, fam, sym, N),
+                                      dict(kind='mpo-pbc-roundtrip', family=fam, sym=sym, N=N, level=level, route=rn, tol=P.tol), family='mpo-pbc-tol')
         for name, ob in objs:
             ref = mgen.dense_state(ob.shallow_copy(), ops) if True else None
             desc = dict(kind='mps-roundtrip', obj=name, family=fam, sym=sym, N=N, rep=k)
